@@ -46,7 +46,9 @@ class Facts:
 
     def body_by_suffix(self, suffix, required=True):
         """Unique body whose path ends with `suffix` (ignoring generic argument lists)."""
-        c = [b for b in self.bodies if strip_generics(b['path']).endswith(suffix)]
+        # `convex_cell_alternative` is an unused experimental copy of the cell (#[allow(unused)], not part of
+        # any property's mechanism); anchors never resolve into it.
+        c = [b for b in self.bodies if strip_generics(b['path']).endswith(suffix) and 'convex_cell_alternative' not in b['path']]
         if len(c) != 1:
             if required:
                 raise AnalysisIncomplete('anchor %s matched %d bodies' % (suffix, len(c)), suffix)
